@@ -141,6 +141,12 @@ func init() {
 	}
 	registerFixture(fixtureCheck{Group: "bnd", Pkg: "bnd/bad", Run: bnd, Want: []string{"bnd/bad.Digits:buf[:n]#1", "bnd/bad.From:s[i:]#1", "bnd/bad.At:xs[n]#1"}})
 	registerFixture(fixtureCheck{Group: "bnd", Pkg: "bnd/good", Run: bnd})
+	ta := func(c *Ctx, r *Result, key string) {
+		g, fs := c.fixGraph(key)
+		runTA(c, r, "TA", fixFuncs(c, g, fs), nil)
+	}
+	registerFixture(fixtureCheck{Group: "ta", Pkg: "ta/bad", Run: ta, Want: []string{"ta/bad.Unchecked:*bad.T#1", "ta/bad.WrongVar:*bad.T#1", "ta/bad.OtherValue:*bad.T#1"}})
+	registerFixture(fixtureCheck{Group: "ta", Pkg: "ta/good", Run: ta})
 	registerFixture(fixtureCheck{Group: "lock", Pkg: "lock/bad", Run: lock, Want: []string{"lock/bad.Register:registry-access#1", "lock/bad.Compile:registry-noescape#1", "lock/bad.Leak:mu-exit"}})
 	registerFixture(fixtureCheck{Group: "lock", Pkg: "lock/good", Run: lock})
 }
